@@ -42,3 +42,10 @@ add("C06", "exploration",
     "Callee arity from the source AST and emitted-function tags from the hook; carve-outs F-D11/F-D20/F-D25.",
     "property-based testing (Hypothesis): call-graph generator + shadow-stack invariant + differential execution",
     "DESIGN.md section 6")
+add("C09", "exploration",
+    "Every emitted line of generated programs under drawn option vectors is validated against an independent IC10 "
+    "instruction table (opcode, operand count/kind, register/device/literal grammar, no placeholders); generated "
+    "literals over all finite doubles and big integers must read back as the value; version-note placement checked.",
+    "Operand kinds per opcode are my reading of IC10; opcode set cross-checked against webapp/src/ic10.json.",
+    "property-based testing (Hypothesis): grammar/ISA validity predicate + literal round-trip",
+    "DESIGN.md section 9")
